@@ -1,5 +1,5 @@
 import TriompheModel.Props.C09
-import TriompheModel.WM.Ownership
+import TriompheModel.WM.OwnershipConsume
 /-!
 # C09 (schedule half) stated about PROGRAMS
 
@@ -48,5 +48,51 @@ theorem C09_after_all_former_sharers_in_every_program
     ∀ (a : Fin r.final.kinds.length) (h' : H), ((execOf r.final hb).kind a).via = some h' → h' ≠ h →
       (h' = 0 ∨ ∃ j, rf = some j ∧ h' ∈ kids (r.final.ops.take (j+1))) → hb (.oth a) (.oth l) :=
   C09_after_all_former_sharers hc (protocol_of_run r hb hpo hsw htrans) hrw (viaBorn_of_run r hb hpo hsw htrans) c
+
+
+/-! ## with `Consume` itself derived from the program (`WM/OwnershipConsume.lean`)
+
+What is assumed about the unwrapping gate is now only what the *program* does: the gate `name` (all of whose loads are
+Acquire in the source of this run, obligation `gateOk`) loaded the count through `h` and read 1; the program never drops `h`
+(the gate forgets it after moving the value out) and issues no clone of `h` after the gate (the gate took `h` by value). -/
+
+/-- the gate of such a program is a `Consume` -/
+theorem consume_in_every_program {name : String} (hg : gateOk name = true)
+    (hpo : ∀ x y, (lift x, lift y) ∈ r.final.po → hb x y)
+    (hsw : ∀ x y, (lift x, lift y) ∈ r.final.sw → hb x y)
+    (htrans : ∀ x y z, hb x y → hb y z → hb x z)
+    {l : Fin r.final.kinds.length} {h : H} {o : MemOrd} {rf : Option Nat}
+    (hl : (execOf r.final hb).kind l = .load h o rf)
+    (ho : ∀ g ∈ Generated.gates, g.name = name → o ∈ g.loads)
+    (hone : valRead r.final.ops rf = 1)
+    (hkeep : ∀ m : Nat, r.final.ops[m]? ≠ some (Op.dec h))
+    (hno : ∀ (i : Nat) (ch : H), r.final.ops[i]? = some (Op.inc ch h) → i < stamp r.final l) :
+    Consume (execOf r.final hb) l h o rf := by
+  obtain ⟨g, hgm, hn, _, hacq, _⟩ := acq_of_gateOk hg
+  exact consume_of_run r hb hpo hsw htrans hl (hacq o (ho g hgm hn)) hone hkeep hno
+
+/-- **C09 for every program**: the value a successful unwrapping gate moved out is never destroyed, every access any other
+thread made through a handle that existed where the gate read from happens-before the gate's load, and no second gate
+succeeds through another handle. -/
+theorem C09_for_every_program {name : String} (hg : gateOk name = true)
+    (hpo : ∀ x y, (lift x, lift y) ∈ r.final.po → hb x y)
+    (hsw : ∀ x y, (lift x, lift y) ∈ r.final.sw → hb x y)
+    (htrans : ∀ x y z, hb x y → hb y z → hb x z)
+    (hc : Consistent (execOf r.final hb)) (hrw : CoRW (execOf r.final hb))
+    {l : Fin r.final.kinds.length} {h : H} {o : MemOrd} {rf : Option Nat}
+    (hl : (execOf r.final hb).kind l = .load h o rf)
+    (ho : ∀ g ∈ Generated.gates, g.name = name → o ∈ g.loads)
+    (hone : valRead r.final.ops rf = 1)
+    (hkeep : ∀ m : Nat, r.final.ops[m]? ≠ some (Op.dec h))
+    (hno : ∀ (i : Nat) (ch : H), r.final.ops[i]? = some (Op.inc ch h) → i < stamp r.final l) :
+    (¬ ∃ f k, (execOf r.final hb).kind f = .destroy k) ∧
+    (∀ (a : Fin r.final.kinds.length) (h' : H), ((execOf r.final hb).kind a).via = some h' → h' ≠ h →
+      (h' = 0 ∨ ∃ j, rf = some j ∧ h' ∈ kids (r.final.ops.take (j+1))) → hb (.oth a) (.oth l)) ∧
+    (∀ (l₂ : Fin r.final.kinds.length) (h₂ : H) (o₂ : MemOrd) (rf₂ : Option Nat),
+      Consume (execOf r.final hb) l₂ h₂ o₂ rf₂ → h₂ = h) := by
+  have c := consume_in_every_program r hg hpo hsw htrans hl ho hone hkeep hno
+  exact ⟨C09_moved_out_never_destroyed_in_every_program r hpo hsw htrans hc hrw c,
+    C09_after_all_former_sharers_in_every_program r hpo hsw htrans hc hrw c,
+    fun l₂ h₂ o₂ rf₂ c₂ => C09_one_winner_in_every_program r hpo hsw htrans hc hrw c₂ c⟩
 
 end C09
